@@ -258,6 +258,11 @@ class Gen:
                 w('BOOST_MSM_BACK_GENERATE_PROCESS_EVENT(%s)' % m['name'])
         w('#endif')
         w()
+        w('#if defined(VF_FAM_BACK11)')
+        w('#define VF_EV(T, name) T name(id)')
+        w('#else')
+        w('#define VF_EV(T, name) const T name(id)')
+        w('#endif')
         w('namespace vf {')
         # Submit<Fsm>
         for m in ix.order:
@@ -265,7 +270,7 @@ class Gen:
             w('template <> void Submit<%s>::go(%s& fsm, char api, int ev, int id) {' % (mn, mn))
             w('    switch (ev) {')
             for i, ev in enumerate(sp['events']):
-                w('    case %d: if (api == \'p\') fsm.process_event(%s(id)); else fsm.enqueue_event(%s(id)); break;' % (i, ev, ev))
+                w('    case %d: { VF_EV(%s, e); if (api == \'p\') fsm.process_event(e); else fsm.enqueue_event(e); break; }' % (i, ev))
             w('    default: break; }')
             w('}')
         # Reads<Fsm>
@@ -297,13 +302,13 @@ class Gen:
         w('    static int process(Root& root, int ev, int id) {')
         w('        switch (ev) {')
         for i, ev in enumerate(sp['events']):
-            w('        case %d: return (int)root.process_event(%s(id));' % (i, ev))
+            w('        case %d: { VF_EV(%s, e); return (int)root.process_event(e); }' % (i, ev))
         w('        default: return -1; }')
         w('    }')
         w('    static void enqueue(Root& root, int ev, int id) {')
         w('        switch (ev) {')
         for i, ev in enumerate(sp['events']):
-            w('        case %d: root.enqueue_event(%s(id)); break;' % (i, ev))
+            w('        case %d: { VF_EV(%s, e); root.enqueue_event(e); break; }' % (i, ev))
         w('        default: break; }')
         w('    }')
         # idmap
